@@ -2009,3 +2009,30 @@ Proof.
   destruct (merge_pass [p2]) as [p3| | |] eqn:E3; try discriminate; try (exfalso; eapply S1; eauto; fail).
   destruct (existsb is_zero_sample (p_sample p3)); discriminate.
 Qed.
+
+(* ------------------------------------------------------------------ histories: Merge / Compact are
+   functions of what their inputs contain NOW.  An input may be the result of an earlier Merge that
+   was edited in place by an arbitrary [edit] (Aggregate, demangling, ...): stacks are grouped by the
+   identities of the edited profile, not by those it had when it was produced. *)
+Theorem compact_conserves_lemma : forall q q2,
+  compact q = MOk q2 ->
+  (forall k j, eq64 (wt q2 k j) (wt q k j)) /\
+  NoDup (map (sample_ident_of q2) (p_sample q2)) /\
+  (forall s, In s (p_sample q2) -> is_zero_sample s = false).
+Proof.
+  intros q q2 H. unfold compact in H. split; [|split].
+  - intros k j. pose proof (merge_conserves_lemma [q] q2 H k j) as W. cbn [map] in W.
+    rewrite sumZ_cons in W. cbn [sumZ fold_right] in W. rewrite Z.add_0_r in W. exact W.
+  - eapply merge_distinct_lemma; eauto.
+  - eapply merge_no_zero_lemma; eauto.
+Qed.
+
+Theorem merge_after_edit_lemma : forall (edit : profile -> profile) ps q rest q2,
+  merge ps = MOk q -> merge (edit q :: rest) = MOk q2 ->
+  (forall k j, eq64 (wt q2 k j) (wt (edit q) k j + sumZ (map (fun p => wt p k j) rest))) /\
+  NoDup (map (sample_ident_of q2) (p_sample q2)).
+Proof.
+  intros edit ps q rest q2 _ H. split.
+  - intros k j. exact (merge_conserves_lemma (edit q :: rest) q2 H k j).
+  - eapply merge_distinct_lemma; eauto.
+Qed.
